@@ -454,6 +454,10 @@ struct Alphabet {
     n_params: usize,
     depth: usize,
     cross: bool,
+    /// the `L-reuse` call variants (`reuse`, `reuse_self`) are part of the alphabet
+    reuse: bool,
+    /// aggregation actions are part of the alphabet
+    agg: bool,
 }
 
 fn enabled(s: &State, info: &StateInfo, al: &Alphabet) -> Vec<Act> {
@@ -462,13 +466,15 @@ fn enabled(s: &State, info: &StateInfo, al: &Alphabet) -> Vec<Act> {
     for x in &s.proofs {
         v.push(Act::L { x: r(x), cache: "none" });
         v.push(Act::L { x: r(x), cache: "fresh" });
-        v.push(Act::L { x: r(x), cache: "reuse" });
-        v.push(Act::L { x: r(x), cache: "reuse_self" });
+        if al.reuse {
+            v.push(Act::L { x: r(x), cache: "reuse" });
+            v.push(Act::L { x: r(x), cache: "reuse_self" });
+        }
         if s.nl.is_some() {
             v.push(Act::L { x: r(x), cache: "slot" });
         }
     }
-    for x in &s.proofs {
+    for x in s.proofs.iter().filter(|_| al.agg) {
         for y in &s.proofs {
             v.push(Act::A { x: r(x), y: r(y), cache: "none", cross: false });
             v.push(Act::A { x: r(x), y: r(y), cache: "slot", cross: false });
@@ -561,6 +567,8 @@ fn main() {
         n_params,
         depth,
         cross,
+        reuse: true,
+        agg: true,
     };
     let mut scenarios = if ctx.quick() {
         // cheap scenarios first: a budget cut on a slow machine then drops the tail of the big ones
@@ -572,7 +580,10 @@ fn main() {
             sc(&["U0", "U1", "B0"], 3, 2, false),
             // one base, two parameter sets, one step deeper: histories such as
             // "prepare under P0 ; switch to P1 ; prove with the held preparation"
-            sc(&["B0"], 2, 3, false),
+            // A pure next-layer chain (L and P actions only): with aggregations its last level alone
+            // is 200 calls / 16 s and never fitted the quick budget; aggregation histories of depth 3
+            // are in the thorough tier. The L-reuse variants are covered at depth <= 2 above.
+            Alphabet { reuse: false, agg: false, ..sc(&["B0"], 2, 3, false) },
         ]
     } else {
         vec![
@@ -582,7 +593,7 @@ fn main() {
             // their layers and aggregations, under two parameter sets
             sc(&["W0", "W1", "B0"], 2, 2, false),
             // everything the quick tier does, one step deeper (takes what is left of the budget)
-            sc(&["U0", "U1", "B0"], 3, 3, false),
+            Alphabet { reuse: false, ..sc(&["U0", "U1", "B0"], 3, 3, false) },
         ]
     };
     if ctx.opt("depth").is_some() || ctx.opt("bases").is_some() || ctx.opt("params").is_some() || ctx.opt("cross").is_some() {
@@ -981,7 +992,7 @@ fn main() {
     }
     states_total += seen.len();
     per_scenario.push(json!({"bases": al.bases, "params": w.env.params.iter().take(al.n_params).map(|p| p.0.clone()).collect::<Vec<_>>(),
-        "depth": al.depth, "cross_entry_point": al.cross, "states": seen.len(), "levels": per_level}));
+        "depth": al.depth, "cross_entry_point": al.cross, "l_reuse_variants": al.reuse, "aggregation_actions": al.agg, "states": seen.len(), "levels": per_level}));
     if !exhaustive {
         break;
     }
